@@ -7,6 +7,7 @@
 //@ enforce XMLReader_refreshRawBuffer
 //@ replace BinInputStream_readBytes
 //@ entry h_refreshRawBuffer
+//@ note the fill loop reads until the buffer is full or a read returns 0; that a stream eventually returns 0 or fills the buffer is the decreases clause (each read that lets the loop go on adds at least one byte)
 //@ note stream contract S_iface (assumed for every BinInputStream; proved for BinMemInputStream in its own unit): readBytes returns r <= maxToRead, writes nothing outside toFill[0..maxToRead), may throw; the signature is taken from BinMemInputStream::readBytes (the base declaration is pure virtual)
 //@ note ghost STREAM_SEQ counts stream reads and is assumed not to wrap (fewer than 2^64 reads)
 //@ note the stream contract lets the stream scribble on toFill[r..maxToRead) too: a weaker assumption than "writes only toFill[0..r)", hence a stronger theorem
@@ -46,6 +47,15 @@ __CPROVER_loop_invariant(index <= bytesLeft)
 __CPROVER_loop_invariant((GR < index) ==> fRawByteBuf[GR] == __CPROVER_loop_entry(fRawByteBuf[(fRawBufIndex + GR < kRawBufSize) ? fRawBufIndex + GR : 0]))
 __CPROVER_loop_invariant((GR >= index && fRawBufIndex + GR < kRawBufSize) ==> fRawByteBuf[fRawBufIndex + GR] == __CPROVER_loop_entry(fRawByteBuf[(fRawBufIndex + GR < kRawBufSize) ? fRawBufIndex + GR : 0]))
 __CPROVER_decreases(bytesLeft - index)
+loop 2
+__CPROVER_assigns(bytesRead, bytesInBuf, __CPROVER_object_upto(fRawByteBuf, sizeof(fRawByteBuf)), STREAM_R, STREAM_SEQ, verif_thrown, verif_throw_type, verif_throw_code)
+__CPROVER_loop_invariant(!verif_thrown && bytesLeft <= bytesInBuf && bytesInBuf <= kRawBufSize)
+__CPROVER_loop_invariant(STREAM_SEQ >= __CPROVER_loop_entry(STREAM_SEQ))
+/* a read that let the loop go on delivered something; the buffer is not full yet */
+__CPROVER_loop_invariant((STREAM_SEQ != __CPROVER_loop_entry(STREAM_SEQ)) ==> (bytesInBuf > bytesLeft && bytesInBuf < kRawBufSize))
+/* the carried bytes are not touched by the reads (each read starts behind what is already in the buffer) */
+__CPROVER_loop_invariant((GR < bytesLeft) ==> fRawByteBuf[GR] == __CPROVER_loop_entry(fRawByteBuf[GR]))
+__CPROVER_decreases(kRawBufSize - bytesInBuf)
 @*/
 
 void h_refreshRawBuffer(void)
